@@ -166,32 +166,36 @@ where
     Ok(ret)
 }
 
-/// assumption (b): contract of jxl_coding::read_permutation
-fn stub_read_permutation(
-    bitstream: &mut Bitstream,
-    _decoder: &mut jxl_coding::Decoder,
-    size: u32,
-    skip: u32,
-) -> jxl_coding::CodingResult<Vec<usize>> {
-    let (perm, fail, bits) = unsafe {
-        STUB_CALLS += 1;
-        STUB_ARGS = (size as u64, skip as u64);
-        (STUB_PERM, STUB_FAIL, STUB_BITS)
-    };
-    if fail != 0 {
-        return Err(jxl_coding::Error::InvalidPermutation);
-    }
-    ok_or_prune(bitstream.skip_bits(bits));
-    Ok(match size {
-        1 => [perm[0]].to_vec(),
-        5 => [perm[0], perm[1], perm[2], perm[3], perm[4]].to_vec(),
-        7 => [perm[0], perm[1], perm[2], perm[3], perm[4], perm[5], perm[6]].to_vec(),
-        _ => {
-            kani::assume(false); // table shapes of the instantiations below only
-            Vec::new()
+/// assumption (b): contract of jxl_coding::read_permutation. One stub per table length: the returned Vec must have a
+/// length that is a constant for CBMC's symbolic execution (a merged `Result<Vec<_>, _>` -- Ok or Err chosen by a
+/// symbolic flag, or one of several lengths -- has symbolic ptr/cap/len fields and `vec![0; permutation.len()]` then
+/// exhausts memory; measured). The Err outcome is therefore a separate, concrete instantiation (STUB_FAIL).
+macro_rules! stub_read_permutation {
+    ($name:ident, $n:expr) => {
+        fn $name(
+            bitstream: &mut Bitstream,
+            _decoder: &mut jxl_coding::Decoder,
+            size: u32,
+            skip: u32,
+        ) -> jxl_coding::CodingResult<Vec<usize>> {
+            let (perm, fail, bits) = unsafe {
+                STUB_CALLS += 1;
+                STUB_ARGS = (size as u64, skip as u64);
+                (STUB_PERM, STUB_FAIL, STUB_BITS)
+            };
+            if fail != 0 {
+                return Err(jxl_coding::Error::InvalidPermutation);
+            }
+            ok_or_prune(bitstream.skip_bits(bits));
+            let mut out = [0usize; $n];
+            out.copy_from_slice(&perm[..$n]);
+            Ok(out.to_vec())
         }
-    })
+    };
 }
+stub_read_permutation!(stub_read_permutation_1, 1);
+stub_read_permutation!(stub_read_permutation_5, 5);
+stub_read_permutation!(stub_read_permutation_7, 7);
 
 /// assumption (c)
 fn stub_read_clusters(bitstream: &mut Bitstream, num_dist: u32) -> jxl_coding::CodingResult<(u32, Vec<u8>)> {
@@ -284,6 +288,9 @@ fn parse_contract<const N: usize, const LEN: usize, const PAD: usize>(
     num_lf: usize,
     num_groups: usize,
     permuted: bool,
+    fail: bool,
+    extra_bits_max: usize,
+    short_entries_only: bool,
 ) {
     assert!(PAD == LEN + 8);
     let fh = toc_header(width, height, num_passes);
@@ -295,7 +302,7 @@ fn parse_contract<const N: usize, const LEN: usize, const PAD: usize>(
         k += 1;
     }
     let extra_bits: usize = kani::any();
-    kani::assume(extra_bits <= 9);
+    kani::assume(extra_bits <= extra_bits_max);
     let stub_bits = 8 * CONCRETE_PREFIX - 1 - CODER_HEADER_BITS + extra_bits;
     if permuted {
         let head = 1u16 | (CODER_HEADER << 1); // permuted_toc = 1, then the coder header
@@ -318,7 +325,6 @@ fn parse_contract<const N: usize, const LEN: usize, const PAD: usize>(
         }
         i += 1;
     }
-    let fail: bool = kani::any();
     unsafe {
         STUB_PERM = perm;
         STUB_FAIL = fail as u64;
@@ -338,6 +344,9 @@ fn parse_contract<const N: usize, const LEN: usize, const PAD: usize>(
     let mut k = 0;
     while k < N {
         let (v, nb) = spec_toc_entry(&bytes, pos);
+        if short_entries_only {
+            kani::assume(nb == 12); // quick-tier variant: every entry uses the u(10) form
+        }
         s[k] = v;
         o[k] = total;
         total += v as usize;
@@ -358,10 +367,16 @@ fn parse_contract<const N: usize, const LEN: usize, const PAD: usize>(
         assert!(unsafe { STUB_ARGS } == (N as u64, 0u64), "[C14] ReadPermutation(size = number of TOC entries, skip = 0)");
     }
     assert!(r.is_ok() == spec_ok, "[C14] Toc::parse fails exactly for non-zero padding or an invalid permutation (enough data offered)");
+    if permuted && fail {
+        let reported = matches!(r, Err(crate::Error::Decoder(jxl_coding::Error::InvalidPermutation)));
+        assert!(reported, "[C14,C01] an invalid permutation is reported as such");
+        kani::cover!(reported);
+        return;
+    }
     kani::cover!(r.is_ok());
     kani::cover!(r.is_err());
     let Ok(toc) = r else { return };
-    kani::cover!(s[0] >= 4211712 && (N == 1 || s[N - 1] < 1024));
+    kani::cover!(short_entries_only || (s[0] >= 4211712 && (N == 1 || s[N - 1] < 1024)));
     kani::cover!(!permuted || N == 1 || perm[0] != 0);
 
     assert!(bitstream.num_read_bits() == pos, "[C14] parsing stops at the byte boundary after the last TOC entry");
@@ -516,67 +531,43 @@ fn toc_accessors_contract_7_permuted() {
 }
 
 // ---- unpermuted tables: every byte symbolic (assumptions a, d)
-#[kani::proof]
-#[kani::unwind(10)]
-#[kani::stub(jxl_bitstream::Bitstream::read_bits, stub_read_bits)]
-#[kani::stub(jxl_coding::Decoder::parse, stub_decoder_unreachable)]
-fn parse_single_plain_contract() {
-    // 1x1 frame, one pass: num_groups == 1 && num_passes == 1 -> ONE entry (toc.rs:184)
-    parse_contract::<1, 8, 16>(1, 1, 1, 1, 1, false);
+macro_rules! plain_harness {
+    ($name:ident, $call:expr) => {
+        #[kani::proof]
+        #[kani::unwind(10)]
+        #[kani::stub(jxl_bitstream::Bitstream::read_bits, stub_read_bits)]
+        #[kani::stub(jxl_coding::Decoder::parse, stub_decoder_unreachable)]
+        fn $name() {
+            $call;
+        }
+    };
 }
-
-#[kani::proof]
-#[kani::unwind(10)]
-#[kani::stub(jxl_bitstream::Bitstream::read_bits, stub_read_bits)]
-#[kani::stub(jxl_coding::Decoder::parse, stub_decoder_unreachable)]
-fn parse_two_passes_plain_contract() {
-    // 1x1 frame, two passes: 1 + 1 + 1 + 1 * 2 = 5 entries
-    parse_contract::<5, 24, 32>(1, 1, 2, 1, 1, false);
-}
-
-#[kani::proof]
-#[kani::unwind(10)]
-#[kani::stub(jxl_bitstream::Bitstream::read_bits, stub_read_bits)]
-#[kani::stub(jxl_coding::Decoder::parse, stub_decoder_unreachable)]
-fn parse_two_groups_plain_contract() {
-    // 257x1 frame (group_dim 256: header.rs:31 default group_size_shift 1), one pass: 2 groups -> 1 + 1 + 1 + 2 = 5 entries
-    parse_contract::<5, 24, 32>(257, 1, 1, 1, 2, false);
-}
+// 1x1 frame, one pass: num_groups == 1 && num_passes == 1 -> ONE entry (toc.rs:184)
+plain_harness!(parse_single_plain_contract, parse_contract::<1, 8, 16>(1, 1, 1, 1, 1, false, false, 0, false));
+// 1x1 frame, two passes: 1 + 1 + 1 + 1 * 2 = 5 entries
+plain_harness!(parse_two_passes_plain_contract, parse_contract::<5, 24, 32>(1, 1, 2, 1, 1, false, false, 0, false));
+plain_harness!(parse_two_passes_plain_short_contract, parse_contract::<5, 24, 32>(1, 1, 2, 1, 1, false, false, 0, true));
+// 257x1 frame (group_dim 256: header.rs:31 default group_size_shift 1), one pass: 2 groups -> 1 + 1 + 1 + 2 = 5 entries
+plain_harness!(parse_two_groups_plain_contract, parse_contract::<5, 24, 32>(257, 1, 1, 1, 2, false, false, 0, false));
 
 // ---- permuted tables (assumptions a, b, c)
-#[kani::proof]
-#[kani::unwind(10)]
-#[kani::stub(jxl_bitstream::Bitstream::read_bits, stub_read_bits)]
-#[kani::stub(jxl_coding::read_permutation, stub_read_permutation)]
-#[kani::stub(jxl_coding::read_clusters, stub_read_clusters)]
-fn parse_single_permuted_contract() {
-    parse_contract::<1, 24, 32>(1, 1, 1, 1, 1, true);
+macro_rules! permuted_harness {
+    ($name:ident, $stub:ident, $call:expr) => {
+        #[kani::proof]
+        #[kani::unwind(10)]
+        #[kani::stub(jxl_bitstream::Bitstream::read_bits, stub_read_bits)]
+        #[kani::stub(jxl_coding::read_permutation, $stub)]
+        #[kani::stub(jxl_coding::read_clusters, stub_read_clusters)]
+        fn $name() {
+            $call;
+        }
+    };
 }
-
-#[kani::proof]
-#[kani::unwind(10)]
-#[kani::stub(jxl_bitstream::Bitstream::read_bits, stub_read_bits)]
-#[kani::stub(jxl_coding::read_permutation, stub_read_permutation)]
-#[kani::stub(jxl_coding::read_clusters, stub_read_clusters)]
-fn parse_two_passes_permuted_contract() {
-    parse_contract::<5, 40, 48>(1, 1, 2, 1, 1, true);
-}
-
-#[kani::proof]
-#[kani::unwind(10)]
-#[kani::stub(jxl_bitstream::Bitstream::read_bits, stub_read_bits)]
-#[kani::stub(jxl_coding::read_permutation, stub_read_permutation)]
-#[kani::stub(jxl_coding::read_clusters, stub_read_clusters)]
-fn parse_two_groups_permuted_contract() {
-    parse_contract::<5, 40, 48>(257, 1, 1, 1, 2, true);
-}
-
-#[kani::proof]
-#[kani::unwind(10)]
-#[kani::stub(jxl_bitstream::Bitstream::read_bits, stub_read_bits)]
-#[kani::stub(jxl_coding::read_permutation, stub_read_permutation)]
-#[kani::stub(jxl_coding::read_clusters, stub_read_clusters)]
-fn parse_two_by_two_permuted_contract() {
-    // 257x1 frame, two passes: 1 + 1 + 1 + 2 * 2 = 7 entries
-    parse_contract::<7, 48, 56>(257, 1, 2, 1, 2, true);
-}
+// the stubbed read_permutation consumes 125..=134 bits for the one-entry table (every alignment of the first padding),
+// exactly 125 (TOC entries start at byte 17, no padding bits) for the longer tables
+permuted_harness!(parse_single_permuted_contract, stub_read_permutation_1, parse_contract::<1, 24, 32>(1, 1, 1, 1, 1, true, false, 9, false));
+permuted_harness!(parse_two_passes_permuted_contract, stub_read_permutation_5, parse_contract::<5, 40, 48>(1, 1, 2, 1, 1, true, false, 0, false));
+permuted_harness!(parse_two_passes_permuted_short_contract, stub_read_permutation_5, parse_contract::<5, 40, 48>(1, 1, 2, 1, 1, true, false, 0, true));
+permuted_harness!(parse_two_groups_permuted_contract, stub_read_permutation_5, parse_contract::<5, 40, 48>(257, 1, 1, 1, 2, true, false, 0, false));
+// read_permutation fails: the error is passed on
+permuted_harness!(parse_permutation_error_contract, stub_read_permutation_5, parse_contract::<5, 40, 48>(1, 1, 2, 1, 1, true, true, 0, false));
